@@ -28,6 +28,7 @@ Fixpoint vars_expr (e : expr) (acc : list string) {struct e} : list string :=
   | EIdx x i | EIdxInc _ x i => add_var x (vars_expr i acc)
   | ECallV f a => vars_args a (vars_expr f acc)
   | EMatch s m => vars_arms m (vars_expr s acc)
+  | ECallN _ a _ b => vars_args b (vars_args a acc)
   end
 with vars_args (a : args) (acc : list string) {struct a} : list string :=
   match a with ANil => acc | ACons e r => vars_args r (vars_expr e acc) end
@@ -134,6 +135,7 @@ Fixpoint cov_expr (e : expr) {struct e} : bool :=
   | EIdx x i | EIdxInc _ x i => mem x vs && cov_expr i
   | ECallV f a => cov_expr f && cov_args a
   | EMatch s m => cov_expr s && cov_arms m
+  | ECallN _ a _ b => cov_args a && cov_args b
   end
 with cov_args (a : args) {struct a} : bool :=
   match a with ANil => true | ACons e r => cov_expr e && cov_args r end
